@@ -8,6 +8,12 @@ Two comparisons per case:
 A failing clause is inside the scope of known finding K3 iff it is an unwitnessed entry whose witness
 mapping, as returned by the real `map_subgraph`, is not an embedding (decided per case by re-running the
 query with `fgutils.query.is_functional_group` / `map_subgraph` wrapped); anything else is a VIOLATION.
+
+ENTRY POINTS / INPUT FORMS (tags cfg_entry:*, cfg_repr:*, cfg_flavour:*, mol_form:*, entry:get(*)): the configuration reaches
+FGQuery as provider object, list of dicts, list of FGConfig objects, single FGConfig or not at all; generated lists come in
+three flavours (H/R anywhere, H/R ONLY in anti-patterns, none at all; anti-pattern as string or list, several sizes per
+group); the molecule is handed to `get` as plain graph, with extra attributes, numpy ids, frozen, as sub-graph view, or as
+the SMILES string; `get` runs on a private copy whose observable state must be unchanged afterwards.
 """
 import copy
 import os
@@ -17,6 +23,7 @@ import networkx as nx
 
 from common import Atom, Case, Run, call_impl, prepare, ImplError, enc_graph, enc_mapper, load_known_findings, canon
 import gen_tables_c05 as gt
+from c03_common import apply_forms, choose_forms          # FORMS of a graph object: extra attributes, numpy ids, frozen, view
 
 import genparsed
 
@@ -168,13 +175,28 @@ POOL = ['C(=O)', 'RC(=O)H', 'RC(=O)R', 'RC(=O)OH', 'RC(=O)N(R)R', 'COH', 'CCOH',
 SYMS = ['C', 'C', 'C', 'O', 'O', 'N', 'S', 'R', 'R', 'H', 'Cl']
 
 
-def gen_tree_pattern(rng, size):
+# patterns without any `H` / `R` node, and anti-patterns (of different sizes) that need a hydrogen or a wildcard
+POOL_NOHR = ['C=O', 'CO', 'CN', 'CCl', 'COC', 'CC(=O)C', 'NC=O', 'OO', 'N#C', 'O=CO', 'CC(O)C', 'CSC', 'C(Cl)Cl', 'CC(O)O', 'CBr', 'CC=O',
+             'COC(=O)', 'CN(C)C', 'C=CO', 'CS', 'O', 'N', 'S', 'Cl', 'C(=O)O', 'C(=O)N', 'CC(=O)O', 'CC(=O)OC', 'C#N', 'CNC', 'CF', 'OC=O',
+             'CC(=O)N', 'COO', 'CC(=O)Cl', 'NC', 'OC', 'CSC(=O)', 'C=CN']
+ANTI_HR = ['OH', 'NH', 'SH', 'N(H)H', 'C(=O)H', 'COH', 'C(=O)OH', 'OC(H)', 'C(H)(H)(H)O', 'CN(H)H', 'CC(=O)H', 'C(=O)N(H)H', 'OOH', 'C(O)OH',
+           'C(H)=O', 'NC(H)', 'C(H)(H)Cl', 'ROR', 'RN(R)R', 'RC(=O)R', 'RC(=O)OR', 'OR', 'RS', 'N(R)H', 'RC(R)(R)O', 'RC=O', 'C(=O)(R)H',
+           'H', 'CH']
+ANTI_NOHR = ['CC(O)O', 'C=O', 'OC', 'CO', 'N', 'C(=O)O', 'COC', 'CCl', 'CN', 'OO', 'CC(=O)C', 'C(=O)N', 'O=CO', 'CC(C)O', 'S']
+SYMS_NOHR = ['C', 'C', 'C', 'O', 'O', 'N', 'S', 'Cl']
+
+
+def has_hr(pattern_graph):
+    return any(sym in ('H', 'R') for _, sym in pattern_graph.nodes(data='symbol'))
+
+
+def gen_tree_pattern(rng, size, syms=None):
     """random acyclic connected pattern string with `size` nodes"""
     parent = [None] + [rng.randrange(i) for i in range(1, size)]
     kids = {i: [] for i in range(size)}
     for i in range(1, size):
         kids[parent[i]].append(i)
-    sym = [rng.choice(SYMS) for _ in range(size)]
+    sym = [rng.choice(syms or SYMS) for _ in range(size)]
     if all(s in 'RH' for s in sym):
         sym[0] = rng.choice(['O', 'N', 'C'])
 
@@ -193,14 +215,23 @@ def gen_tree_pattern(rng, size):
     return emit(0)
 
 
-def gen_config_list(rng):
-    """3-8 acyclic connected patterns with group_atoms and occasional anti-patterns; returns the list of dicts
-    or None when the real tree builder refuses the list (C07's domain, not ours)"""
+CONFIG_FLAVOURS = ["mixed", "mixed", "mixed", "mixed", "HR_only_in_anti_patterns", "HR_only_in_anti_patterns", "HR_only_in_anti_patterns",
+                   "no_HR_at_all", "no_HR_at_all"]
+
+
+def gen_config_list(rng, flavour="mixed"):
+    """1-8 acyclic connected patterns with group_atoms and anti-patterns; returns the list of dicts.
+    flavour: "mixed" — `H` / `R` anywhere; "HR_only_in_anti_patterns" — NO pattern of the list has an `H` or `R` node, the
+    anti-patterns (1-3 per group, different sizes) do; "no_HR_at_all" — neither patterns nor anti-patterns.
+    An anti-pattern is given as a plain string (one) or as a list."""
     from fgutils.parse import parse
-    k = rng.randint(3, 8)
+    k = rng.choice([1, 2, 3, 3, 4, 4, 5, 6, 7, 8]) if flavour != "mixed" else rng.randint(3, 8)
     pats = []
     while len(pats) < k:
-        p = rng.choice(POOL) if rng.random() < 0.65 else gen_tree_pattern(rng, rng.randint(1, 6))
+        if flavour == "mixed":
+            p = rng.choice(POOL) if rng.random() < 0.65 else gen_tree_pattern(rng, rng.randint(1, 6))
+        else:
+            p = rng.choice(POOL_NOHR) if rng.random() < 0.7 else gen_tree_pattern(rng, rng.randint(1, 5), SYMS_NOHR)
         if p not in pats:
             pats.append(p)
     cfgs = []
@@ -220,41 +251,66 @@ def gen_config_list(rng):
             ga = sorted(v for v in g.nodes if rng.random() < 0.5)
             if ga:
                 c["group_atoms"] = ga
-        if rng.random() < 0.2:
-            aps = []
-            for _ in range(rng.randint(1, 2)):
-                aps.append(rng.choice(['CC(O)O', 'C=O', 'OC', 'CO', 'N', 'C(=O)O', 'COC', 'CCl', p + 'C', p + 'O', 'CN', 'OO']))
-            c["anti_pattern"] = aps if rng.random() < 0.8 else aps[0]
+        if flavour == "mixed":
+            if rng.random() < 0.2:
+                aps = []
+                for _ in range(rng.randint(1, 2)):
+                    aps.append(rng.choice(['CC(O)O', 'C=O', 'OC', 'CO', 'N', 'C(=O)O', 'COC', 'CCl', p + 'C', p + 'O', 'CN', 'OO']))
+                c["anti_pattern"] = aps if rng.random() < 0.8 else aps[0]
+        elif rng.random() < (0.7 if flavour == "HR_only_in_anti_patterns" else 0.4):
+            pool = (ANTI_HR + [p + 'H', p + 'R']) if flavour == "HR_only_in_anti_patterns" else (ANTI_NOHR + [p + 'C', p + 'O'])
+            aps = rng.sample(pool, rng.choice([1, 1, 2, 3]))
+            c["anti_pattern"] = aps[0] if len(aps) == 1 and rng.random() < 0.6 else aps
         cfgs.append(c)
+    if flavour == "HR_only_in_anti_patterns" and not any("anti_pattern" in c for c in cfgs):
+        c = rng.choice(cfgs)
+        c["anti_pattern"] = rng.choice(ANTI_HR)
     return cfgs
 
 
 class Config:
     """a configuration = provider + its tree in wire form (built once)"""
 
-    def __init__(self, label, cfg_dicts=None, ignore_case=True):
-        from fgutils.fgconfig import FGConfigProvider
+    def __init__(self, label, cfg_dicts=None, ignore_case=True, representation="dicts", flavour=None):
+        """representation: the provider is built from the list of dicts or from a list of FGConfig OBJECTS"""
+        from fgutils.fgconfig import FGConfigProvider, FGConfig
         from fgutils.permutation import PermutationMapper
         self.label = label
         self.cfg_dicts = cfg_dicts
         self.ignore_case = ignore_case
+        self.representation = representation
+        self.flavour = flavour
         self.mapper = PermutationMapper(wildcard="R", ignore_case=ignore_case)
         self.wire_mapper = enc_mapper("R", ignore_case, [])
-        self.provider = FGConfigProvider(copy.deepcopy(cfg_dicts), mapper=self.mapper) if cfg_dicts is not None \
-            else FGConfigProvider(mapper=self.mapper)
+        if cfg_dicts is None:
+            self.provider = FGConfigProvider(mapper=self.mapper)
+        elif representation == "objects":
+            self.provider = FGConfigProvider([FGConfig(**copy.deepcopy(d)) for d in cfg_dicts], mapper=self.mapper)
+        else:
+            self.provider = FGConfigProvider(copy.deepcopy(cfg_dicts), mapper=self.mapper)
         self.roots = self.provider.get_tree()
         self.nodes, self.root_idx = gt.extract_tree(self.roots)
         self.wire_tree = [[enc_tree_node(n, ch) for n, ch in self.nodes], self.root_idx]
         self.n_anti = sum(len(n.fgconfig.anti_pattern) for n, _ in self.nodes)
+        self.hr_in_patterns = any(has_hr(n.fgconfig.pattern) for n, _ in self.nodes)
+        self.hr_in_anti = any(has_hr(a) for n, _ in self.nodes for a in n.fgconfig.anti_pattern)
+        self.anti_sizes = sorted({a.number_of_nodes() for n, _ in self.nodes for a in n.fgconfig.anti_pattern})
+        self.anti_as_string = cfg_dicts is not None and any(isinstance(d.get("anti_pattern"), str) for d in cfg_dicts)
+        self.anti_several = any(len(n.fgconfig.anti_pattern) > 1 for n, _ in self.nodes)
 
 
 def make_generated_config(rng, k):
+    flavour = CONFIG_FLAVOURS[k % len(CONFIG_FLAVOURS)]
     for _ in range(50):
-        cfgs = gen_config_list(rng)
+        cfgs = gen_config_list(rng, flavour)
         try:
-            return Config("gen%d" % k, cfgs, ignore_case=rng.random() < 0.85)
+            c = Config("gen%d" % k, cfgs, ignore_case=rng.random() < 0.85, representation=rng.choice(["dicts", "dicts", "objects"]),
+                       flavour=flavour)
         except Exception:      # tree builder refused (assertion "matches in both directions", parse error …)
             continue
+        if flavour != "mixed" and c.hr_in_patterns:
+            continue
+        return c
     return None
 
 
@@ -285,10 +341,61 @@ def with_timeout(f, *a):
         signal.signal(signal.SIGALRM, old)
 
 
-def impl_get(cfg, graph, require_h):
+class InputModified(Exception):
+    pass
+
+
+def snapshot(g):
+    """everything a caller can observe of a graph object: node order and attributes, adjacency order and edge attributes,
+    graph attributes"""
+    return ([(n, copy.deepcopy(d)) for n, d in g.nodes(data=True)],
+            [(u, [(v, copy.deepcopy(dd)) for v, dd in g.adj[u].items()]) for u in g.nodes], copy.deepcopy(dict(g.graph)))
+
+
+ENTRIES_GENERATED = ["provider", "provider", "provider", "provider", "list_of_dicts", "list_of_objects"]
+# without a configuration FGQuery builds the default tree anew (0.5 s per query): 3.5% + 3.5% of the default-configuration queries (+ corpus)
+ENTRIES_DEFAULT = ["provider"] * 26 + ["config_omitted", "all_defaults"]
+ENTRIES_DEFAULT_THOROUGH = ["provider"] * 198 + ["config_omitted", "all_defaults"]      # ~200 rebuilt default trees in 20000 queries
+LAST_TREE = [None]
+
+
+def make_query(cfg, require_h, entry):
+    """the ways a configuration reaches FGQuery: an FGConfigProvider object ("provider"), a list of dicts, a list of
+    FGConfig objects, a single FGConfig object, nothing at all (default configuration; "all_defaults": no mapper either)"""
     from fgutils.query import FGQuery
-    q = FGQuery(mapper=cfg.mapper, config=cfg.provider, require_implicit_hydrogen=require_h)
-    out = q.get(copy.deepcopy(graph))
+    from fgutils.fgconfig import FGConfig
+    if entry == "provider":
+        return FGQuery(mapper=cfg.mapper, config=cfg.provider, require_implicit_hydrogen=require_h)
+    if entry == "config_omitted":
+        return FGQuery(mapper=cfg.mapper, require_implicit_hydrogen=require_h)
+    if entry == "all_defaults":
+        return FGQuery(require_implicit_hydrogen=require_h) if require_h is not True else FGQuery()
+    if entry == "list_of_dicts":
+        return FGQuery(mapper=cfg.mapper, config=copy.deepcopy(cfg.cfg_dicts), require_implicit_hydrogen=require_h)
+    if entry == "list_of_objects":
+        return FGQuery(mapper=cfg.mapper, config=[FGConfig(**copy.deepcopy(d)) for d in cfg.cfg_dicts], require_implicit_hydrogen=require_h)
+    if entry == "single_object":
+        return FGQuery(mapper=cfg.mapper, config=FGConfig(**copy.deepcopy(cfg.cfg_dicts[0])), require_implicit_hydrogen=require_h)
+    raise ValueError(entry)
+
+
+def impl_get(cfg, graph, require_h, entry="provider", smiles=None):
+    """`FGQuery(...).get(value)`; value = a private copy of `graph` (whose observable state must be the same after the
+    call: InputModified otherwise) or, with `smiles`, the SMILES string itself.  For the entries in which FGQuery builds
+    its own provider, LAST_TREE[0] is the wire form of the tree THAT query used."""
+    LAST_TREE[0] = None
+    q = make_query(cfg, require_h, entry)
+    if entry != "provider":
+        nodes, rs = gt.extract_tree(q.config_provider.get_tree())
+        LAST_TREE[0] = [[enc_tree_node(n, ch) for n, ch in nodes], rs]
+    if smiles is not None:
+        out = q.get(smiles)
+    else:
+        h = copy.deepcopy(graph)
+        before = snapshot(h)
+        out = q.get(h)
+        if snapshot(h) != before:
+            raise InputModified("FGQuery.get changed the graph it was given")
     return [[name, [int(i) for i in ids]] for name, ids in out]
 
 
@@ -462,6 +569,46 @@ def entry_is_stuck_descent(cfg, graph, require_h, entry):
     return stuck
 
 
+def entry_blocked_by_non_embedding_anti_pattern(cfg, graph, require_h, entry):
+    """K3 scope test for a `morespecific` failure of one returned entry (name, atoms) — the same matcher defect acting on
+    an ANTI-pattern: at a listed atom where the entry is truly witnessed, the real query examined a strict descendant
+    group, found its pattern there, and rejected it ONLY because map_subgraph reported an anti-pattern match whose
+    mapping is not an embedding, while (true-embedding oracle) the descendant is witnessed there: its pattern embeds and
+    no anti-pattern embeds on the atom.  Anything else: not in scope."""
+    name, atoms = entry
+    out, records = trace_query(cfg, graph, require_h)
+    ic = cfg.mapper.ignore_case
+    idx = [k for k, (n, _) in enumerate(cfg.nodes) if n.fgconfig.name == name]
+    children = {k: ch for k, (_, ch) in enumerate(cfg.nodes)}
+
+    def desc(k):
+        seen, stack = [], list(children[k])
+        while stack:
+            x = stack.pop()
+            if x not in seen:
+                seen.append(x)
+                stack.extend(children[x])
+        return seen
+    desc_cfgs = {id(cfg.nodes[d][0].fgconfig) for k in idx for d in desc(k)}
+    for r in records:
+        if id(r["config"]) not in desc_cfgs or r["index"] not in atoms:
+            continue
+        if r["result"][0] or r["index"] not in r["result"][1]:
+            continue                      # accepted, or the pattern itself was not found on this atom
+        host = r["graph"]
+        max_id = r["max_id"] if r["max_id"] is not None else max(host.nodes)
+        anti_hits = [(patt, mp) for patt, res in r["calls"] if any(patt is a for a in r["config"].anti_pattern)
+                     for ok, mp in res if ok]
+        if not anti_hits or any(is_embedding(mp, patt, host, ic) for patt, mp in anti_hits):
+            continue                      # rejected by a genuine anti-pattern embedding
+        if not true_witness_sets(r["config"], host, r["index"], max_id, ic):
+            continue                      # the descendant is not witnessed here anyway
+        entry_cfgs = [cfg.nodes[k][0].fgconfig for k in idx]
+        if any(tuple(atoms) in true_witness_sets(c, host, r["index"], max_id, ic) for c in entry_cfgs):
+            return True
+    return False
+
+
 # ---------------------------------------------------------------------------
 # corpus
 # ---------------------------------------------------------------------------
@@ -514,11 +661,21 @@ def replay(path):
     if "graph" not in meta:
         print("replay file has no input graph (kind=%s): %s" % (j.get("kind"), j.get("theorem_or_correspondence")))
         return 2
-    cfg = Config(meta.get("config", "default"), meta.get("config_dicts"), ignore_case=meta.get("ignore_case", True))
+    cfg = Config(meta.get("config", "default"), meta.get("config_dicts"), ignore_case=meta.get("ignore_case", True),
+                 representation=meta.get("cfg_representation") or "dicts")
     g = graph_from_lists(meta["graph"])
     rh = bool(meta.get("require_h", True))
-    out = call_impl(with_timeout, impl_get, cfg, g, rh)
-    c = Case([Atom("C05"), Atom("get"), cfg.wire_mapper, cfg.wire_tree, enc_graph(g), rh], out)
+    forms = meta.get("mol_forms") or []
+    entry = meta.get("cfg_entry") or "provider"
+    via = meta.get("via_smiles") or None
+    gv = apply_forms(g, forms) if forms else g
+    print("configuration entry: %s (provider built from %s); molecule: %s" % (
+        entry, cfg.representation, ("the SMILES string %r" % via) if via else ("graph object, forms %s" % (forms or "plain"))))
+    out = call_impl(with_timeout, impl_get, cfg, gv, rh, entry, via)
+    if isinstance(out, ImplError) and out.text.startswith("InputModified"):
+        out.kind = "InputModified"
+    wire_tree = LAST_TREE[0] if (LAST_TREE[0] is not None and entry != "provider") else cfg.wire_tree
+    c = Case([Atom("C05"), Atom("get"), cfg.wire_mapper, wire_tree, enc_graph(gv), rh], out)
     d = Driver()
     rep = d.ask(c.line())
     d.close()
@@ -533,12 +690,13 @@ def replay(path):
     if rep[3] == "0":
         fails = rep[4]
         known = (not isinstance(out, ImplError)) and fails and all(
-            (f[0] == "unwitnessed" and entry_traces_to_non_embedding(cfg, g, rh, (out[int(f[1])][0], out[int(f[1])][1])))
-            or (f[0] == "morespecific" and entry_is_stuck_descent(cfg, g, rh, (out[int(f[1])][0], out[int(f[1])][1])))
+            (f[0] == "unwitnessed" and entry_traces_to_non_embedding(cfg, gv, rh, (out[int(f[1])][0], out[int(f[1])][1])))
+            or (f[0] == "morespecific" and (entry_is_stuck_descent(cfg, gv, rh, (out[int(f[1])][0], out[int(f[1])][1]))
+                                            or entry_blocked_by_non_embedding_anti_pattern(cfg, gv, rh, (out[int(f[1])][0], out[int(f[1])][1]))))
             for f in fails)
         if known:
             print("KNOWN-FINDING: property=C05 every failing clause is inside the scope of K3 (non-embedding returned "
-                  "by map_subgraph) or K4 (greedy descent stuck below a witnessed descendant)")
+                  "by map_subgraph, as witness or as anti-pattern match) or K4 (greedy descent stuck below a witnessed descendant)")
             return 0
         print("VIOLATION property=C05 replay=%s" % path)
         return 1
@@ -585,21 +743,60 @@ def run(tier, seed):
             "proof-obligation", "generated_tree", {"theorem_or_correspondence": [
                 "Generated/C05.lean differs from FGConfigProvider().get_tree() of the running code"]}))
 
-    def add_get(cfg, g, rh, meta, tags, smiles=None):
-        out = call_impl(with_timeout, impl_get, cfg, g, rh)
-        req = [Atom("C05"), Atom("get"), cfg.wire_mapper, cfg.wire_tree, enc_graph(g), bool(rh)]
+    tree_mismatch = [0]
+    frozen_rh = {"cases": 0, "raised": 0, "kinds": {}}
+
+    def add_get(cfg, g, rh, meta, tags, smiles=None, entry="provider", forms=(), via_smiles=False):
+        """forms: FORMS of the molecule object handed to `get` (extra attributes, numpy ids, frozen, sub-graph view);
+        entry: how the configuration reaches FGQuery; via_smiles: the SMILES string `get` is given instead of the graph `g`
+        (which is what mol_smiles_to_graph makes of that string)"""
+        forms = [list(f) for f in forms]
+        gv = apply_forms(g, forms) if forms else g
+        out = call_impl(with_timeout, impl_get, cfg, gv, rh, entry, via_smiles or None)
+        if isinstance(out, ImplError) and out.text.startswith("InputModified"):
+            out.kind = "InputModified"
+        wire_tree = cfg.wire_tree
+        if LAST_TREE[0] is not None and entry != "provider":
+            if canon(LAST_TREE[0]) != canon(cfg.wire_tree):
+                tree_mismatch[0] += 1
+                wire_tree = LAST_TREE[0]          # the tree the query really used
+        req = [Atom("C05"), Atom("get"), cfg.wire_mapper, wire_tree, enc_graph(gv), bool(rh)]
         in_dom = g.number_of_nodes() > 0 and all(d.get('symbol') is not None for _, d in g.nodes(data=True))
+        t = list(tags)
+        kinds = sorted({k for k, _ in forms})
+        if rh and ("frozen" in kinds or "view" in kinds):
+            # LIBRARY LIMITATION (recorded, out of domain): copy.deepcopy of a frozen graph / of a view is frozen too, so the
+            # hydrogen completion inside `get` cannot add its nodes and raises NetworkXError
+            in_dom = False
+            frozen_rh["cases"] += 1
+            if isinstance(out, ImplError):
+                frozen_rh["raised"] += 1
+                frozen_rh["kinds"][out.text[:60]] = frozen_rh["kinds"].get(out.text[:60], 0) + 1
+            t.append("mol_form:frozen_or_view_with_hydrogen_completion(out_of_domain)")
         nonempty = (not isinstance(out, ImplError)) and len(out) > 0
-        key = (cfg.label, smiles or tuple(sorted(g.nodes)), tuple(g.edges), bool(rh)) if nonempty else None
-        t = list(tags) + mol_tags(g) + ["cfg:" + ("default" if cfg.label == "default" else "generated"),
-                                        "requireH:%d" % int(rh)]
+        key = (cfg.label, smiles or tuple(sorted(int(x) for x in g.nodes)), tuple((int(u), int(v)) for u, v in g.edges), bool(rh)) if nonempty else None
+        t += mol_tags(g) + ["cfg:" + ("default" if cfg.label == "default" else "generated"), "requireH:%d" % int(rh)]
+        t += ["mol_form:" + k for k in kinds] or ["mol_form:plain"]
+        t.append("entry:get(smiles_string)" if via_smiles else "entry:get(graph)")
+        t.append("cfg_entry:" + entry)
+        if cfg.label != "default":
+            t.append("cfg_repr:" + cfg.representation)
+            if cfg.flavour:
+                t.append("cfg_flavour:" + cfg.flavour)
+            if not cfg.hr_in_patterns and cfg.hr_in_anti:
+                t.append("cfg:HR_only_in_anti_patterns(oracle)")
+            if not cfg.hr_in_patterns and not cfg.hr_in_anti:
+                t.append("cfg:no_HR_at_all(oracle)")
         if not isinstance(out, ImplError):
             t.append("entries:%s" % (len(out) if len(out) < 4 else ">=4"))
         c = Case(req, out, in_domain=in_dom,
                  meta=dict(meta, config=cfg.label, require_h=rh, smiles=smiles, config_dicts=cfg.cfg_dicts,
-                           ignore_case=cfg.ignore_case, graph=graph_to_lists(g)),
+                           ignore_case=cfg.ignore_case, graph=graph_to_lists(g), mol_forms=forms, cfg_entry=entry,
+                           cfg_representation=cfg.representation, via_smiles=via_smiles or None),
                  nontrivial_key=key, tags=t)
-        ctx[id(c)] = (cfg, g, rh, out)
+        # the known-finding oracles re-run the query on the object the implementation was given (the adjacency order of a
+        # variant form may differ from the plain graph's, and with it the non-embedding the matcher returns on a ring)
+        ctx[id(c)] = (cfg, gv, rh, out)
         cases.append(c)
 
     def add_isfg(cfg, node, g, idx, max_id, tags):
@@ -645,6 +842,43 @@ def run(tier, seed):
                 smiles="K4:COC(C)=O")
     except Exception as e:        # pragma: no cover
         r.notes["stuck"] = repr(e)
+    # user configurations whose patterns contain neither `H` nor `R` while an anti-pattern does (the hydrogen completion is
+    # needed for the ANTI-pattern only), as dicts / as FGConfig objects / handed over as a list; anti-pattern as string and list
+    try:
+        acyl = [{"name": "acyl", "pattern": "CC=O", "group_atoms": [1, 2], "anti_pattern": "C(=O)H"},
+                {"name": "dialkyl_ether", "pattern": "COC", "group_atoms": [1]}]
+        acyl2 = [{"name": "acyl", "pattern": "CC=O", "group_atoms": [1, 2], "anti_pattern": ["C(=O)H", "C(=O)OH", "OH"]},
+                 {"name": "sec_amine_like", "pattern": "CNC", "group_atoms": [1], "anti_pattern": ["N(H)H"]}]
+        k = 0
+        for dicts in (acyl, acyl2):
+            for rep in ("dicts", "objects"):
+                cfgx = Config("antiH%d" % k, copy.deepcopy(dicts), representation=rep, flavour="HR_only_in_anti_patterns")
+                k += 1
+                for s_ in ['COCC=O', 'COCC(=O)C', 'CC=O', 'CC(=O)O', 'CNC', 'CN', 'CC(=O)OC']:
+                    for entry in ("provider", "list_of_dicts", "list_of_objects"):
+                        add_get(cfgx, mol_smiles_to_graph(s_), True, {"corpus": "antiH:" + s_}, ["corpus", "corpus:anti_pattern_needs_H"],
+                                smiles="antiH:" + s_, entry=entry)
+        one = Config("single", [{"name": "carbonyl", "pattern": "C=O", "anti_pattern": "C(=O)H"}], flavour="HR_only_in_anti_patterns")
+        for s_ in ['CC=O', 'CC(=O)C']:
+            add_get(one, mol_smiles_to_graph(s_), True, {"corpus": "single:" + s_}, ["corpus", "corpus:anti_pattern_needs_H"],
+                    smiles="single:" + s_, entry="single_object")
+    except Exception as e:        # pragma: no cover
+        r.notes["antiH"] = repr(e)
+    # FORMS of the molecule object and the other entry points, on fixed inputs
+    k = 0
+    for n_, s_ in enumerate(['CC(=O)OCCN', 'OCC(O)CO', 'CC(=O)Cl', 'c1ccccc1O']):
+        g_ = mol_smiles_to_graph(s_)
+        for kind in ("extra_attrs", "numpy_ids", "frozen", "view"):
+            for rh_ in (True, False):
+                k += 1
+                add_get(default, g_, rh_, {"corpus": "form:%s:%s" % (kind, s_)}, ["corpus", "corpus:forms"], smiles="form:%s:%s" % (kind, s_),
+                        forms=[[kind, 3000 + k]])
+        for rh_ in (True, False):
+            add_get(default, g_, rh_, {"corpus": "smiles_string:" + s_}, ["corpus", "corpus:entries"], smiles="str:" + s_, via_smiles=s_)
+            if n_ < 2:
+                add_get(default, g_, rh_, {"corpus": "all_defaults:" + s_}, ["corpus", "corpus:entries"], smiles="dflt:" + s_, entry="all_defaults")
+                if rh_:
+                    add_get(default, g_, rh_, {"corpus": "config_omitted:" + s_}, ["corpus", "corpus:entries"], smiles="omit:" + s_, entry="config_omitted")
     by_name = {n.fgconfig.name: n for n, _ in default.nodes}
     for name, s, anchor in ISFG_TESTS:
         g = add_implicit_hydrogens(mol_smiles_to_graph(s))
@@ -662,6 +896,18 @@ def run(tier, seed):
             r.count("cfg:generated_lists")
             if c.n_anti:
                 r.count("cfg:generated_with_anti_pattern")
+            r.count("cfg_lists:flavour:" + c.flavour)
+            r.count("cfg_lists:representation:" + c.representation)
+            if not c.hr_in_patterns and c.hr_in_anti:
+                r.count("cfg_lists:HR_only_in_anti_patterns(oracle)")
+            if not c.hr_in_patterns and not c.hr_in_anti:
+                r.count("cfg_lists:no_HR_at_all(oracle)")
+            if c.anti_as_string:
+                r.count("cfg_lists:some_anti_pattern_given_as_string")
+            if c.anti_several:
+                r.count("cfg_lists:group_with_several_anti_patterns")
+            if len(c.anti_sizes) > 1:
+                r.count("cfg_lists:anti_patterns_of_different_sizes")
     styles = ['plain', 'plain', 'offset', 'sparse', 'shuffled', 'negative']
     for k in range(n_mols):
         s = gen_smiles(rng)
@@ -670,10 +916,25 @@ def run(tier, seed):
         g = relabel(g0, rng, style) if style != 'plain' else g0
         tags = ["ids:" + style]
         rh = rng.random() < 0.7
-        add_get(default, g, rh, {"style": style}, tags, smiles=s if style == 'plain' else None)
+
+        def variant(rh_):
+            """FORMS of the molecule object / the SMILES-string entry for one query: (rh, forms, via_smiles)"""
+            forms = choose_forms(rng, 0.1)
+            kinds = {f[0] for f in forms}
+            if rh_ and ("frozen" in kinds or "view" in kinds) and rng.random() < 0.85:
+                rh_ = False          # with hydrogen completion the library cannot take a frozen graph (recorded separately)
+            via = (not forms) and style == 'plain' and rng.random() < 0.15
+            return rh_, forms, via
+        rh1, forms, via = variant(rh)
+        add_get(default, g, rh1, {"style": style}, tags, smiles=s if style == 'plain' else None,
+                entry=rng.choice(ENTRIES_DEFAULT if tier == "quick" else ENTRIES_DEFAULT_THOROUGH), forms=forms, via_smiles=s if via else None)
         if gen_cfgs and k % 2 == 0:
             cfg = gen_cfgs[(k // 2) % len(gen_cfgs)]
-            add_get(cfg, g, rng.random() < 0.6, {"style": style}, tags, smiles=s if style == 'plain' else None)
+            # configurations whose anti-patterns (only) need hydrogens are mostly asked WITH hydrogen completion
+            rh2, forms, via = variant(rng.random() < (0.8 if (cfg.hr_in_anti and not cfg.hr_in_patterns) else 0.6))
+            entry = "single_object" if len(cfg.cfg_dicts) == 1 and rng.random() < 0.5 else rng.choice(ENTRIES_GENERATED)
+            add_get(cfg, g, rh2, {"style": style}, tags, smiles=s if style == 'plain' else None,
+                    entry=entry, forms=forms, via_smiles=s if via else None)
         if k % 5 == 0:
             # is_functional_group directly, on the completed graph, at a random atom, for a random group
             mx = max(g.nodes)
@@ -689,7 +950,7 @@ def run(tier, seed):
 
     findings = {f["id"]: f for f in load_known_findings() if f.get("property") == "C05" and f["status"] == "open"}
     k3, k4 = findings.get("K3"), findings.get("K4")
-    k3_cases, k4_cases = [], []
+    k3_cases, k4_cases, k3_anti_cases = [], [], []
 
     def classify(o):
         """every failing clause must be inside the scope of an open known finding, decided per case:
@@ -719,9 +980,15 @@ def run(tier, seed):
                     hit3 = True
                 elif isinstance(f, list) and f[0] == "morespecific" and k4 is not None:
                     entry = out[int(f[1])]
-                    if not entry_is_stuck_descent(cfg, g, rh, (entry[0], entry[1])):
+                    if entry_is_stuck_descent(cfg, g, rh, (entry[0], entry[1])):
+                        hit4 = True
+                    elif k3 is not None and entry_blocked_by_non_embedding_anti_pattern(cfg, g, rh, (entry[0], entry[1])):
+                        # K3's defect (map_subgraph returns a non-embedding on a ring) acting on an anti-pattern
+                        hit3 = True
+                        k3_anti_cases.append((o.case.meta.get("config"), o.case.meta.get("corpus") or o.case.meta.get("smiles")
+                                              or o.case.meta.get("graph"), entry[0]))
+                    else:
                         return None
-                    hit4 = True
                 else:
                     return None
             except Exception:
@@ -757,8 +1024,22 @@ def run(tier, seed):
                             "config": o.case.meta.get("config"),
                             "atom_node_descendant": [[int(a), names[int(pp)][0].fgconfig.name, names[int(c)][0].fgconfig.name]
                                                   for a, pp, c in o.extra[3][1][:4]]})
+    dist = r.dist
+    r.extra_cov["queries_by_configuration_entry"] = {k[len("tag:cfg_entry:"):]: v for k, v in sorted(dist.items()) if k.startswith("tag:cfg_entry:")}
+    r.extra_cov["queries_by_molecule_form"] = {k[len("tag:"):]: v for k, v in sorted(dist.items()) if k.startswith(("tag:mol_form:", "tag:entry:get"))}
+    r.extra_cov["generated_configuration_lists"] = {k[len("cfg_lists:"):]: v for k, v in sorted(dist.items()) if k.startswith("cfg_lists:")}
+    r.extra_cov["queries_on_configurations_with_HR_only_in_anti_patterns"] = dist.get("tag:cfg:HR_only_in_anti_patterns(oracle)", 0)
+    r.extra_cov["queries_on_configurations_without_any_HR"] = dist.get("tag:cfg:no_HR_at_all(oracle)", 0)
+    r.extra_cov["tree_of_query_built_provider_differs_from_harness_provider"] = tree_mismatch[0]
+    r.extra_cov["frozen_or_view_molecule_with_hydrogen_completion(out_of_domain, library limitation)"] = frozen_rh
+    if frozen_rh["raised"]:
+        print("NOTE property=C05 FGQuery.get(frozen graph / sub-graph view) with require_implicit_hydrogen=True raised in %d of %d "
+              "cases (copy.deepcopy keeps the graph frozen, add_implicit_hydrogens cannot add nodes): counted out of domain" % (
+                  frozen_rh["raised"], frozen_rh["cases"]))
     r.extra_cov["k3_witnesses_reproduced"] = sorted(set(x for x in k3_cases if x in K3_WITNESSES))
     r.extra_cov["witness_path_closed_hypothesis"] = pc_stats
+    r.extra_cov["k3_hits_through_an_anti_pattern(more specific group rejected by a non-embedding anti-pattern match)"] = {
+        "cases": len(k3_anti_cases), "examples": [list(map(str, x)) for x in k3_anti_cases[:3]]}
     r.extra_cov["k3_hits_distinct_inputs"] = len(set(map(str, k3_cases)))
     r.extra_cov["k4_hits_distinct_inputs"] = len(set(map(str, k4_cases)))
     r.extra_cov["k4_hits_by_config_kind"] = {"default": sum(1 for c, _ in k4_cases if c == "default"),
@@ -779,8 +1060,13 @@ def run(tier, seed):
         level="proof",
         rule="molecules: fragment-assembly SMILES through RDKit (3-25 heavy atoms; alcohols, carbonyls, esters, amides, "
              "ethers, peroxides, nitriles, halides, aromatic and small rings) + relabelled graphs (offset/sparse/shuffled/"
-             "negative ids, shuffled insertion order); configurations: default tree and generated lists of 3-8 acyclic "
-             "connected patterns with group_atoms and anti-patterns; require_implicit_hydrogen both ways; "
+             "negative ids, shuffled insertion order); configurations: default tree and generated lists of 1-8 acyclic "
+             "connected patterns with group_atoms and anti-patterns in three flavours (H/R anywhere; H/R ONLY in anti-patterns — 1-3 per group, different "
+             "sizes; no H/R at all), anti-pattern as string or list, provider built from dicts or from FGConfig objects; CONFIGURATION ENTRY: provider object / "
+             "list of dicts / list of FGConfig objects / single FGConfig / omitted (tags cfg_entry:*); MOLECULE FORMS for get(): extra node+edge attributes, numpy "
+             "ids, frozen graph, sub-graph view (each 10%, combinable; frozen/view with hydrogen completion = library limitation, out of domain) and the SMILES "
+             "string itself (15% of the plain molecules) — get() works on a private copy whose observable state must be unchanged (InputModified = raised); "
+             "require_implicit_hydrogen both ways; "
              "non-trivial = query with at least one returned entry, distinct by (configuration, graph, flag); "
              "plus direct is_functional_group comparisons",
         checker_cmd="cd lean && lake build " + " ".join(PROOFS) + " && lake env lean FGVerif/Audit/C05.lean && " + genparsed.CHECKER_CMD,
